@@ -9,7 +9,7 @@ LEAN_TARGETS = ['LLTD.Props.C16']
 VARIANT = 'plain'
 RULE = ('seeded random sequences (length 20..200) of add / find / remove / complete / clear / status update / dump / expiry tick / '
         'clock advance (0..200 s incl. 59/60/61) over 24 keys (8 near-colliding addresses x 3 generations) so that the full-table '
-        'case is forced; the table is dumped after every op; non-trivial = the set of live sessions changed at least 3 times; '
+        'case is forced; plus full tables in each completion pattern (none / some / all complete) followed by adds of absent and present keys; the table is dumped after every op; non-trivial = the set of live sessions changed at least 3 times; '
         'distinct = distinct projected transcript')
 ASSUMPTIONS = ['completion is only ever set the way the glue does it (entry->complete = true followed by the status update)']
 project = ident
@@ -48,6 +48,22 @@ def cases(rng, tier, X):
     out = []
     for k in range(n):
         out.append(('seq%d' % k, seq(rng, rng.randint(20, 200), rng.choice([3, 8, 17, 20, 24]))))
+    # the full table in each completion pattern (none / some / all complete), then operations that must fail or refresh
+    for k in range(12 if tier == 'quick' else 600):
+        keys = rng.sample(KEYS, 20)
+        ops = ['tbl new 0', 'clock 1000']
+        for (m, g) in keys[:16]:
+            ops.append('tbl add 0 %s %d %d' % (m, g, 1))
+        pat = k % 3
+        for j, (m, g) in enumerate(keys[:16]):
+            if pat == 2 or (pat == 1 and rng.random() < 0.5):
+                ops.append('tbl complete 0 %s %d' % (m, g))
+        ops.append('tbl update 0')
+        for _ in range(rng.randint(3, 12)):
+            m, g = rng.choice(keys)
+            ops.append(rng.choice(['tbl add 0 %s %d %d' % (m, g, rng.choice([1, 2])), 'tbl add 0 %s %d %d' % (m, g, 1), 'tbl find 0 %s %d' % (m, g),
+                                   'tbl complete 0 %s %d' % (m, g), 'tbl dump 0', 'tbl remove 0 %s %d' % (m, g), 'clock 1000', 'tick - - 0 none']))
+        out.append(('full%d' % k, ops))
     # universal automata schedule (all public calls, missing objects, near-colliding keys, bridged frames, every deadline): this check's predicate on it
     for k in range(60 if tier == 'quick' else 6000):
         out.append(('au%d' % k, auto.schedule(rng)))
